@@ -163,6 +163,10 @@ impl<'a> Parser<'a> {
                 }
             }
             if self.at(TokenKind::Eof) {
+                if end_token.is_some() {
+                    let tok = self.get()?;
+                    return Err(tok.error(ParseErrorKind::UnexpectedEof));
+                }
                 break;
             } else if self.at(TokenKind::Eol) {
                 self.skip();
